@@ -142,8 +142,20 @@ class Evaluator:
         if s is not None:
             return s
         rows = []
+        loops = pathterms.has_cycle(fn)
         for r, b in fn.live_blocks():
             if b["term"]["k"] != "return":
+                continue
+            if loops:
+                # a body with a loop: paths in which every block is entered at most 3 times, every local resolved
+                # to its last definition before the use along the path (flow.shape_at); more iterations than that
+                # leave no feasible path and the evaluation fails closed
+                for path in pathterms.paths_with_loops(fn, r, max_visits=3):
+                    conds = []
+                    for i, bb, op, taken, excluded in pathterms.conditions_at(fn, path):
+                        sh = flow.shape_at(fn, op, path, (i, 10 ** 9), depth=64)
+                        conds.append((self._parse(sh, fn), taken, excluded, self._discr_kind(fn, op), (i, bb)))
+                    rows.append((path, conds, self._parse(flow.shape_at(fn, 0, path, depth=64), fn)))
                 continue
             for path in pathterms.acyclic_paths(fn, r):
                 conds = []
@@ -583,6 +595,17 @@ class Evaluator:
             return guard(lambda a: isdate(a[0]) and isinstance(a[1], tuple) and a[1][0] == "months", add_months)
         if name == "with_day" and n == 2:
             return guard(lambda a: isdate(a[0]) and isinstance(a[1], int), lambda args, fn: ymd_opt(args[0][0], args[0][1], args[1]))
+        if full.endswith("NaiveDate::from_isoywd_opt") and n == 3:
+            def isoywd(args, fn):
+                y, w, wd = args
+                if not (isinstance(y, int) and isinstance(w, int) and isinstance(wd, int)) or not 0 <= wd <= 6:
+                    raise Unmodelled("%s: from_isoywd_opt%r" % (fn.id, tuple(args)))
+                if not (MIN_YEAR < y < MAX_YEAR) or w < 1 or w > 53:
+                    return None
+                jan4 = (y, 1, 4)
+                d = from_ordinal(ordinal(jan4) - weekday(jan4) + (w - 1) * 7 + wd)
+                return ("some", d) if iso_week(d) == (y, w) else None
+            return isoywd
         if name == "iso_week" and n == 1:
             return guard(d0, lambda args, fn: ("isoweek",) + iso_week(args[0]))
         isiw = lambda a: isinstance(a[0], tuple) and len(a[0]) == 3 and a[0][0] == "isoweek"
